@@ -103,8 +103,42 @@ def rep_abandoned_send_cases(n0):
     return out
 
 
+def req_failed_send_cases(n0):
+    """REQ: an in-turn send whose WRITE fails (the chosen server's connection is broken) returns the error and leaves
+    nothing outstanding: the next send is in turn again (and goes to the next server), a recv is out of turn"""
+    out = []
+    n = n0
+    for nsrv in (1, 2, 3):
+        for then in ("send", "recv-then-send"):
+            sc = wg.Script()
+            sc.sock(1, "REQ")
+            for k in range(1, nsrv + 1):
+                sc.attach(1, k, "REP", b"s%d" % k)
+                sc.add(f"wire {k}")
+            sc.add("wrerr 1 BrokenPipe")
+            f = sc.fut()
+            sc.add(f"send {f} 1 {wg.mtok([b'one'])}", f"poll {f}", f"drop {f}")
+            if then == "recv-then-send":
+                g = sc.fut()
+                sc.add(f"recv {g} 1", f"poll {g}", f"drop {g}")
+            h = sc.fut()
+            sc.add(f"send {h} 1 {wg.mtok([b'two'])}", f"poll {h}", f"drop {h}")
+            for k in range(1, nsrv + 1):
+                sc.add(f"wire {k}")
+            if nsrv > 1:
+                sc.reveal_msg(2, [b"", b"answer"])
+                g = sc.fut()
+                sc.add(f"recv {g} 1", f"poll {g}", f"drop {g}")
+            c = sc.case(f"req-failed-send#{n}", ["req-failed-send"])
+            c.expect = ("req-failed-send", nsrv, then)
+            out.append(c)
+            n += 1
+    return out
+
+
 def cases(tier, rng):
     out = gen.corpus(ID)
+    out += req_failed_send_cases(910000)
     # safety net: seeded random schedules of these socket types over scripted pipes (partial reads, back-pressure,
     # errors, futures polled once or twice and then ABANDONED, sockets dropped) — every line predicted by the World model
     for i in range(150 if tier == "quick" else 3000):
@@ -135,6 +169,27 @@ def oracle(case, lines):
         return None
     it = iter(zip(case.ops, lines[1:]))
     res = list(it)
+    if case.expect[0] == "req-failed-send":
+        _, nsrv, then = case.expect
+        polls = [(op, l) for op, l in res if op.startswith("poll") and not l.startswith("ready ok id=")]
+        if not polls[0][1].startswith("ready err") or "ReturnToSender" in polls[0][1]:
+            return f"the send over the broken connection should have failed with the write error: {polls[0][1][:70]}"
+        i = 1
+        if then == "recv-then-send":
+            if not polls[1][1].startswith("ready err"):
+                return f"after a FAILED send nothing is outstanding, yet recv did not fail as out of turn: {polls[1][1][:70]}"
+            i = 2
+        second = polls[i][1]
+        if nsrv == 1:
+            if not second.startswith("ready err ReturnToSender"):
+                return f"with the only server lost the next send must hand the message back: {second[:70]}"
+            return None
+        if second != "ready ok":
+            return (f"after a FAILED send (nothing outstanding) the next, in-turn send was refused: {second[:90]} — the REQ "
+                    "still believes a request is in progress")
+        if polls[-1][1] != f"ready ok M[{wg.show_frames([b'answer'])}]":
+            return f"the reply to the second request did not come back: {polls[-1][1][:70]}"
+        return None
     if case.expect[0] == "rep-abandon":
         h = case.expect[1]
         second = next(l for op, l in res if op == f"poll {h}")
